@@ -149,69 +149,86 @@ def run(rep, tier, seed):
     bindir = common.build_harness(["recipe"])
     audit = common.audit_property_file(PID)
 
-    n_struct = 3000 if quick else 30000
+    n_struct = 3000 if quick else 24000
     k_tapes = 4 if quick else 8
     n_legacy = 1000 if quick else 20000
+    n_cor = 4000 if quick else 40000
+    chunk = 1000            # structures per batch: bounds the memory of a thorough run
 
     constructs = Counter()
     spellings = Counter()
     sizes = Counter()
-    cases = []
-    origin = []        # (spec, tape seed) per case, None for corpus / legacy cases
+    stats = {"parses": 0, "len_sum": 0, "len_max": 0, "fail": 0, "illformed": 0, "n_gen": 0}
+    distinct = set()
+    cor_texts = {"canonical": {}, "extended": {}}
+    samples = []
+    fails = []          # (case, verdict, origin) - the first few failures, shrunk below
+
+    def judge_batch(cases, origin):
+        verdicts = run_cases(bindir, cases)
+        for c, v, o in zip(cases, verdicts, origin):
+            t = c["text"]
+            stats["parses"] += 1
+            stats["len_sum"] += len(t)
+            stats["len_max"] = max(stats["len_max"], len(t))
+            distinct.add(hash(t))
+            ct = cor_texts[c["profile"]]
+            if len(ct) < n_cor:
+                ct[t] = None
+            if v:
+                stats["fail"] += 1
+                if len(fails) < 3:
+                    fails.append((c, v, o))
+
     # corpus first: minimised earlier failures, stored as `<profile> <hex text> <hex expected json> <chev>`
+    cases, origin = [], []
     for line in common.load_corpus(PID):
         f = line.split()
         cases.append({"text": unhx(f[1]), "profile": f[0], "expected": json.loads(unhx(f[2])), "chev": int(f[3])})
         origin.append(None)
     n_corpus = len(cases)
-    illformed = 0
-    tape_styles = Counter()
+    if cases:
+        judge_batch(cases, origin)
     for prof in ("canonical", "extended"):
-        for i in range(n_struct):
-            size = 1.0 if i % 10 else 2.5
-            spec = g.SpecGen(random.Random(rng.getrandbits(48)), prof, size).recipe()
-            try:
-                g.denote(spec, ">>")
-            except g.IllFormed:
-                illformed += 1          # bookkeeping of the generator and the denotation disagree: skipped, counted
-                continue
-            g.construct_counts(spec, constructs)
-            sizes["%s: %d-%d items" % (prof, 10 * (g.spec_size(spec) // 10), 10 * (g.spec_size(spec) // 10) + 9)] += 1
-            for k in range(k_tapes):
-                ts = rng.getrandbits(48)
-                c = make_case(spec, ts, spellings, plain=(k == 0))
-                tape_styles["plain tape" if k == 0 else "random tape"] += 1
-                cases.append(c)
-                origin.append((spec, ts))
-    # implicit references are visible only in the denotation
-    seen_spec = set()
-    for c, o in zip(cases, origin):
-        if o is None or id(o[0]) in seen_spec:
-            continue
-        seen_spec.add(id(o[0]))
-        for lst in ("ingredients", "cookware"):
-            for e_ in c["expected"][lst]:
-                if e_["relation"]["type"] == "reference":
-                    constructs["references resolved (%s)" % lst] += 1
-    n_gen = len(cases) - n_corpus
+        for base in range(0, n_struct, chunk):
+            cases, origin = [], []
+            for i in range(base, min(base + chunk, n_struct)):
+                size = 1.0 if i % 10 else 2.5
+                spec = g.SpecGen(random.Random(rng.getrandbits(48)), prof, size).recipe()
+                try:
+                    exp0 = g.denote(spec, ">>")
+                except g.IllFormed:
+                    stats["illformed"] += 1      # generator bookkeeping and denotation disagree: skipped, counted
+                    continue
+                g.construct_counts(spec, constructs)
+                for lst in ("ingredients", "cookware"):     # implicit references are visible only in the denotation
+                    constructs["references resolved (%s)" % lst] += \
+                        sum(1 for e_ in exp0[lst] if e_["relation"]["type"] == "reference")
+                sz = 10 * (g.spec_size(spec) // 10)
+                sizes["%s: %d-%d items" % (prof, sz, sz + 9)] += 1
+                for k in range(k_tapes):
+                    ts = rng.getrandbits(48)
+                    cases.append(make_case(spec, ts, spellings, plain=(k == 0)))
+                    origin.append((spec, ts))
+            stats["n_gen"] += len(cases)
+            if len(samples) < 4 and cases:
+                samples.append({"input": cases[1]["text"], "profile": prof})
+                samples.append({"input": cases[-1]["text"], "profile": prof})
+            judge_batch(cases, origin)
     # the one-stream generator shared with the other parser checks
+    cases, origin = [], []
     for text, exp, prof, info in pc.grec_texts(rng, n_legacy):
         cases.append({"text": text, "profile": prof, "expected": exp,
                       "chev": len(exp["metadata"]) if info["old_style_meta"] else 0})
         origin.append(None)
+    judge_batch(cases, origin)
 
-    verdicts = run_cases(bindir, cases)
     hits = []
-    fail_idx = [i for i, v in enumerate(verdicts) if v]
-    # all tapes of one structure must give the same projection: count structures with mixed verdicts
-    for i in fail_idx[:3]:
-        c = cases[i]
-        what = verdicts[i]
+    for c, what, o in fails:
         shrunk = None
-        if origin[i] is not None:
-            spec, ts = origin[i]
+        if o is not None:
             try:
-                s2, c2, w2 = shrink(bindir, spec, ts, what)
+                s2, c2, w2 = shrink(bindir, o[0], o[1], what)
                 if w2:
                     c, what, shrunk = c2, w2, s2
             except common.Broken:
@@ -221,12 +238,11 @@ def run(rep, tier, seed):
                      % (c["profile"], what),
                      {"input": c["text"], "input_hex": hx(c["text"]), "ext": e, "conv": cv, "profile": c["profile"],
                       "expected": c["expected"], "chevron_entries": c["chev"], "structure": shrunk,
-                      "failing_cases": len(fail_idx)}))
+                      "failing_cases": stats["fail"]}))
 
     # correspondence on the generated texts, each under the extension set of its profile
-    n_cor = 4000 if quick else 60000
-    can = list(dict.fromkeys(c["text"] for c in cases if c["profile"] == "canonical"))[:n_cor]
-    ext = list(dict.fromkeys(c["text"] for c in cases if c["profile"] == "extended"))[:n_cor]
+    can = list(cor_texts["canonical"])
+    ext = list(cor_texts["extended"])
     dis1, nc1, np1 = pc.lev_disagreements(paths, can, [0])
     dis2, nc2, np2 = pc.lev_disagreements(paths, ext, [pc.EXT_ALL])
     dis = dis1 + dis2
@@ -235,15 +251,15 @@ def run(rep, tier, seed):
                   "correspondence Model/Lexer.v, Model/Parser.v <-> src/lexer, src/parser on printed recipes; "
                   "the analysis pass is compared with the denotation only through the monitor")
     common.proof_coverage(rep, PID, audit, tier,
-                          "lexer (Model/Lexer.v), quantity/value/number parsers and the block parser primitives "
-                          "(Model/Parser.v); printers coq/Model/Printer.v are definitions of the statement, the "
-                          "Python printer checks/c01_gen.py is a separate artefact making the same spelling choices; "
-                          "component/step/document level and the analysis pass are monitored, not proved")
-    texts = [c["text"] for c in cases]
-    ex_i = [n_corpus, n_corpus + 1, n_corpus + n_gen // 2 + 1, n_corpus + n_gen - 1]
+                          "lexer (Model/Lexer.v); numeric_value, parse_quantity (regular and advanced path), Text assembly, "
+                          "comp_body / note / parse_alias / ingredient of Model/Parser.v; the printers of "
+                          "coq/Model/Printer.v are definitions of the statements, the Python printer checks/c01_gen.py is "
+                          "a separate artefact making the same spelling choices; single-word / modifier / alias / note "
+                          "forms, cookware, timers, steps, blocks, documents and the analysis pass are compared and "
+                          "monitored, not proved")
     rep.coverage.update({
-        "evaluations": len(cases) + nc1 + nc2,
-        "distinct_nontrivial": len(set(texts)),
+        "evaluations": stats["parses"] + nc1 + nc2,
+        "distinct_nontrivial": len(distinct),
         "rule": "%d recipe structures per profile (canonical: core syntax; extended: + modifiers, aliases, references, "
                 "intermediate references, mode/duplicate switches, ranges, advanced units, inline temperatures), every "
                 "10th of 2.5x size; each printed under %d tapes (tape 0 = first alternative everywhere, the others random; "
@@ -251,15 +267,15 @@ def run(rep, tier, seed):
                 "spelling each) + %d corpus cases; monitor = no diagnostics beyond the `>>` notice and projection equal "
                 "to the denotation computed from the structure alone; failures are shrunk (blocks, items, component "
                 "parts) under the same tape seed, then under the plain tape; L-lex/L-ev on %d + %d distinct texts"
-                % (n_struct, k_tapes, n_gen, n_legacy, n_corpus, len(can), len(ext)),
-        "samples": [{"input": cases[i]["text"], "profile": cases[i]["profile"]} for i in ex_i if 0 <= i < len(cases)],
-        "structures_per_profile": n_struct, "tapes_per_structure": k_tapes, "parses": len(cases),
-        "generator_illformed_skipped": illformed,
-        "monitor_violations": len(fail_idx),
+                % (n_struct, k_tapes, stats["n_gen"], n_legacy, n_corpus, len(can), len(ext)),
+        "samples": samples,
+        "structures_per_profile": n_struct, "tapes_per_structure": k_tapes, "parses": stats["parses"],
+        "generator_illformed_skipped": stats["illformed"],
+        "monitor_violations": stats["fail"],
         "constructs": dict(sorted(constructs.items())),
         "spelling_choices": dict(sorted(spellings.items())),
         "structure_sizes": dict(sorted(sizes.items())),
-        "text_length_max": max(len(t) for t in texts), "text_length_mean": round(sum(map(len, texts)) / len(texts), 1),
+        "text_length_max": stats["len_max"], "text_length_mean": round(stats["len_sum"] / max(1, stats["parses"]), 1),
         "correspondence_cases": nc1 + nc2, "correspondence_disagreements": len(dis),
         "both_sides_panic_cases": np1 + np2,
         "decimal_tolerance_relative": "2^-52", "exhaustive": False,
